@@ -6,6 +6,7 @@ Ported to Python 3.
 
 import re
 from datetime import timedelta
+from fractions import Fraction
 
 HOUR = 3600
 DAY = 24*3600
@@ -89,7 +90,7 @@ def abbreviate_space_both(s):
 def parse_abbreviated_size(s):
     if s is None or s == "":
         return None
-    m = re.match(r"^(\d+)\s*([KMGTPE]?[I]?[B]?)$", s.upper())
+    m = re.match(r"^(\d+(?:\.\d+)?)\s*([KMGTPE]?[I]?[B]?)$", s.upper())
     if not m:
         raise ValueError("unparseable value %s" % s)
     number, suffix = m.groups()
@@ -110,4 +111,7 @@ def parse_abbreviated_size(s):
                   "PI": 1024 * 1024 * 1024 * 1024 * 1024,
                   "EI": 1024 * 1024 * 1024 * 1024 * 1024 * 1024,
                   }[suffix]
-    return int(number) * multiplier
+    value = Fraction(number) * multiplier
+    if value.denominator != 1:
+        raise ValueError("%s is not a whole number of bytes" % s)
+    return int(value)
